@@ -16,7 +16,8 @@ static const uint32_t F_LARGE = 1, F_HARD = 2, F_FULL = 4, F_JIT = 8, F_SECURE =
 // key pool: equal lengths with different content, keys that differ in a single (first / last) byte, an empty key,
 // a key longer than std::string's SSO buffer; index 6 is the 32-byte operand of the commitment op
 struct KeySpec { uint32_t len; uint64_t seed; uint32_t tweak; };
-static const KeySpec KEY_POOL[] = {{12, 1000, 0}, {12, 1001, 0}, {200, 1002, 0}, {12, 1000, 1}, {200, 1002, 2}, {0, 1005, 0}, {32, 1006, 0}, {61, 1007, 0}};
+static const KeySpec KEY_POOL[] = {{12, 1000, 0}, {12, 1001, 0}, {200, 1002, 0}, {12, 1000, 1}, {8, 1000, 0}, {0, 1005, 0}, {32, 1006, 0}, {200, 1002, 2}, {61, 1007, 0}};
+static const int KEY_POOL_N = 9; // {8,1000} is a strict prefix of {12,1000}: bytes are positional in the seed
 static const uint32_t INPUT_LENS[] = {76, 0, 1, 127, 128, 129, 1024, 33, 64, 200};
 
 // ------------------------------------------------------------------ builder with a mirror of the contract model
@@ -30,14 +31,19 @@ struct Builder {
 	int idc = 0, idd = 0;
 	int phase = 0, task = 0;
 	int nkeys = 0, ninputs = 0;
+	bool extra_keys = false;
 	bool attach_env = false;
 	bool env_masked_only = false;
 
 	Builder(Context &g, uint64_t seed, const char *stream) : gc(g), rng(rt::substream(seed, stream)) {
 		plan.property = g.property; plan.seed = seed; plan.items = g.N;
 		rt::Rng hr = rt::substream(seed, "heap"); plan.heap_seed = hr.next() | 1;
-		nkeys = g.small ? 8 : 4; ninputs = 8;
-		for (int i = 0; i < nkeys; ++i) plan.keys.push_back(Blob(KEY_POOL[i % 8].len, KEY_POOL[i % 8].seed, KEY_POOL[i % 8].tweak));
+		nkeys = g.small ? 9 : 6;
+		// reduced configurations: half of the plans draw two further keys at random (key-specific code paths such as
+		// a particular SuperscalarHash immediate are reached only by searching the key space; a cache costs ~2 ms there)
+		extra_keys = g.small && rt::substream(seed, "keys").chance(1, 2); ninputs = 8;
+		for (int i = 0; i < nkeys; ++i) plan.keys.push_back(Blob(KEY_POOL[i % KEY_POOL_N].len, KEY_POOL[i % KEY_POOL_N].seed, KEY_POOL[i % KEY_POOL_N].tweak));
+		if (extra_keys) { rt::Rng kr = rt::substream(seed, "keys2"); for (int i = 0; i < 2; ++i) { plan.keys.push_back(Blob((uint32_t)kr.range(1, 40), kr.next() | 0x100000)); ++nkeys; } }
 		for (int i = 0; i < ninputs; ++i) plan.inputs.push_back(Blob(INPUT_LENS[i % 10], (uint64_t)2000 + i));
 	}
 	Op &emit(int kind) { Op o; o.kind = kind; o.phase = phase; o.task = task; plan.ops.push_back(o); return plan.ops.back(); }
@@ -111,13 +117,16 @@ struct Builder {
 		set_cache(v, c);
 		return true;
 	}
-	void hash(int v, int input) { Op &o = emit(HASH); o.v = v; o.input = input; if (attach_env) o.env = rnd_env(); }
+	void hash(int v, int input) { Op &o = emit(HASH); o.v = v; o.input = input; if (attach_env) o.env = rnd_env(); V[v].batch = false; }
 	void first(int v, int input) { Op &o = emit(FIRST); o.v = v; o.input = input; if (attach_env) o.env = rnd_env(); V[v].batch = true; }
 	void next(int v, int input) { Op &o = emit(NEXT); o.v = v; o.input = input; if (attach_env) o.env = rnd_env(); }
 	void last(int v) { Op &o = emit(LAST); o.v = v; if (attach_env) o.env = rnd_env(); V[v].batch = false; }
 	int rnd_input() { return (int)rng.below(ninputs); }
 	int key_limit = 0;
-	int rnd_key() { return (int)rng.below(key_limit ? key_limit : nkeys); }
+	int rnd_key() {
+		if (extra_keys && rng.chance(1, 2)) return nkeys - 1 - (int)rng.below(2); // one of the two random keys
+		return (int)rng.below(key_limit ? key_limit : nkeys);
+	}
 	uint32_t rnd_cache_flags() { return rng.pick(gc.cache_flagsets); }
 	uint32_t rnd_vm_flags_light() { uint32_t f = rng.pick(gc.vm_flagsets_light); if (rng.chance(1, 2)) f |= F_V2; return f; }
 	uint32_t rnd_vm_flags_fast() { uint32_t f = rng.pick(gc.vm_flagsets_fast); if (rng.chance(1, 2)) f |= F_V2; return f; }
@@ -282,6 +291,10 @@ static void history(Builder &b, const HistoryOpts &ho) {
 			} else {
 				if (!b.hashable(v)) { b.destroy_vm(v); continue; }  // its cache went away under it: destroying is all that is legal
 				if (rng.chance(1, 14)) { b.destroy_vm(v); continue; } // destroy in the middle of a batch
+				if (rng.chance(1, 10)) { // abandon the batch: a single-call hash or a fresh first() on the same VM
+					if (rng.chance(1, 2)) b.hash(v, b.rnd_input()); else { b.first(v, b.rnd_input()); b.V[v].left = (int)rng.range(0, 3); }
+					continue;
+				}
 				if (b.V[v].left > 0) { b.next(v, b.rnd_input()); b.V[v].left--; }
 				else b.last(v);
 			}
